@@ -11,6 +11,10 @@ structural clauses are:
          push_subindex/pop_subindex, compile_begin/compile_end (a missing scope_end shifts every later local slot).
   C01.V  name resolution: resolve_var searches the locals of the current function so that the innermost (last declared)
          binding of a name wins, and returns the front-based slot index of that binding.
+  C01.L  loop control state is hidden from scripts: in the Repeat and ForEach arms every local that compiler-generated
+         code READS (read_local_var, or an operand of the loop instructions) is declared with the unnameable name "" -
+         a local carrying a script-visible name is only ever written by the loop code (per-iteration copy), so an
+         assignment to the loop variable inside the body cannot change the iteration count.
   (+ C06.O local addressing and C10.W operand decoding, shared, see those properties)
 """
 from cao.facts import AnchorMissing, hir_walk, hir_callee, hir_strip, hir_local_id, pat_variants, short
@@ -256,6 +260,66 @@ def rule_s(F):
     return res
 
 
+def rule_l(F):
+    from rules.c10 import arm_labels
+    res = []
+    f = F.fn("compiler::Compiler::process_card")
+    labels = arm_labels(f)
+    inits = hu.let_inits(f)
+    # classify locals declared through add_local / add_local_unchecked
+    decl = {}   # local id -> ("hidden" | "named", ln)
+    for lid, exprs in inits.items():
+        kinds = set()
+        ln = None
+        for e in exprs:
+            for y in hir_walk(e):
+                if y.get("k") == "mcall" and y["name"] in ("add_local", "add_local_unchecked") and \
+                        any(n.startswith("compiler::Compiler::add_local") for n in hir_callee(y)):
+                    a = hu.strip_all(y["args"][0]) if y["args"] else None
+                    empty = a is not None and a.get("k") == "lit" and a["lit"].get("k") == "str" and a["lit"].get("v") == ""
+                    kinds.add("hidden" if (y["name"] == "add_local_unchecked" and empty) else "named")
+                    ln = y.get("ln")
+        if kinds:
+            decl[lid] = ("named" if "named" in kinds else "hidden", ln)
+    per_arm = {}
+    for x in hir_walk(f.hir["body"]):
+        lab = labels.get(id(x))
+        if lab not in ("Repeat", "ForEach"):
+            continue
+        if x.get("k") == "mcall" and x["name"] == "read_local_var" and x["args"]:
+            lid = hir_local_id(hu.strip_all(x["args"][0]))
+            per_arm.setdefault(lab, []).append((lid, x, "read_local_var"))
+        elif x.get("k") == "call" and "bytecode::write_to_vec" in hir_callee(x):
+            lid = hir_local_id(hu.strip_all(x["args"][0]))
+            if lid in decl:
+                per_arm.setdefault(lab, []).append((lid, x, "instruction operand"))
+    for lab in ("Repeat", "ForEach"):
+        uses = per_arm.get(lab, [])
+        if not uses:
+            raise AnchorMissing("loop control reads in the %s arm" % lab)
+        seen = {}
+        for lid, x, how in uses:
+            d = decl.get(lid)
+            name = None
+            for y in hir_walk(x):
+                if y.get("k") == "path" and y["path"]["res"].get("k") == "local" and y["path"]["res"].get("id") == lid:
+                    name = y["path"]["res"].get("name")
+            key = "C01/L/process_card[%s]/%s-is-hidden" % (lab, name or "?")
+            if key in seen:
+                continue
+            seen[key] = True
+            if d is None:
+                res.append(undecided("C01.L", key, f.loc(x["ln"]), "local read by the loop code is not declared through add_local*"))
+            elif d[0] == "hidden":
+                res.append(ok("C01.L", key, f.loc(x["ln"]), "read by the loop code (%s), declared with the unnameable name \"\"" % how))
+            else:
+                res.append(bad("C01.L", key, f.loc(x["ln"]),
+                               "the %s loop reads `%s` (%s) to drive the iteration, but that local can carry a script-visible name (declared "
+                               "at line %s through add_local): an assignment to the loop variable inside the body overwrites the loop's own "
+                               "state, the body no longer runs exactly n times with i = 0..n-1" % (lab, name, how, d[1])))
+    return res
+
+
 def rule_v(F):
     """innermost binding wins: the search over `locals` in resolve_var stops at the first hit of a *reversed* scan whose
     reported index counts from the front (enumerate before rev, or rposition)."""
@@ -267,5 +331,6 @@ RULES = [
     Rule("C01.T", rule_t, 36, "operator cards -> like-named instruction -> like operator"),
     Rule("C01.O", rule_o, 10, "operand order of binary operators"),
     Rule("C01.S", rule_s, 12, "scope / sub-index / nested-function brackets are balanced"),
+    Rule("C01.L", rule_l, 7, "loop control state is hidden from scripts"),
     Rule("C01.V", rule_v, 1, "a name resolves to its innermost binding"),
 ]
